@@ -62,3 +62,16 @@ def attribute_namespaces_have_prefixes():
     return rec("C09/tables/attribute-namespaces-have-prefixes", ok, len(adjustForeignAttributes),
                "every namespace adjustForeignAttributes can give an attribute is a key of constants.prefixes, and these are "
                "exactly the namespaces the sanitizer contract quantifies over", witness=bad or (None if ok else nss))
+
+
+@ground("C10")
+def no_raw_text_element_is_allowed_by_default():
+    """with the default allow-list the serializer never enters its raw-text state after the sanitizer: it decides raw
+    text by bare element name (constants.rcdataElements), and no allowed element, in any namespace, has such a name; all
+    text therefore goes through the escaping branch (C08 step contract text_is_escaped_or_reported)"""
+    from html5lib.constants import rcdataElements, cdataElements
+    from html5lib.filters import sanitizer
+    bad = sorted([list(e) for e in sanitizer.allowed_elements if e[1] in rcdataElements])
+    return rec("C10/tables/no-raw-text-element-on-the-default-allow-list", not bad, len(sanitizer.allowed_elements),
+               "no (namespace, name) of the default allowed_elements has a name in constants.rcdataElements "
+               "(style, script, xmp, iframe, noembed, noframes, noscript)", witness=bad or None)
